@@ -75,6 +75,7 @@ fn main() {
         "C10" => dispatch(props::c10::RelProp(props::c10::RWhich::C10), &cfg, &replay),
         "C16" => dispatch(props::c16::C16, &cfg, &replay),
         "C17" => dispatch(props::c17::C17, &cfg, &replay),
+        "C20" => dispatch(props::c20::C20, &cfg, &replay),
         "C18" => dispatch(props::c18::C18, &cfg, &replay),
         "C19" => dispatch(props::c19::C19, &cfg, &replay),
         "C15" => dispatch(props::c15::C15, &cfg, &replay),
